@@ -327,11 +327,110 @@ pub fn case_strategy(max_calls: usize) -> impl Strategy<Value = Case> {
     (source, prop::collection::vec((0u8..5, any::<u16>(), 0u8..8, any::<u16>()), 0..=max_calls)).prop_map(|(source, schedule)| Case { source, schedule })
 }
 
+/// Canaries: one reference-encoded box of every kind, decoded through the stand-alone decoders at
+/// the start of the run and again after every 64th case. Their results may not change, whatever
+/// files were opened in between: state that survives outside the readers (process-wide or
+/// per-thread flags, modes, caches) would show as a canary that decodes differently.
+pub struct Canaries {
+    inputs: Vec<(crate::boxes::Spec, Vec<u8>)>,
+    want: Vec<String>,
+}
+
+struct JsonOf<'a> {
+    kind: &'a str,
+    bytes: &'a [u8],
+}
+
+impl<'a> crate::libbox::Visitor for JsonOf<'a> {
+    type Out = String;
+    fn visit<T: crate::libbox::LibBox>(&mut self, w: &T) -> String {
+        match crate::libbox::decode(w, self.bytes, self.kind) {
+            Ok(Ok((v, pos))) => match guard(|| mp4::Mp4Box::to_json(&v)) {
+                // parsed, so that the order in which a HashMap is serialised does not matter
+                Ok(Ok(j)) => format!("{}@{}", serde_json::from_str::<Value>(&j).map(|x| x.to_string()).unwrap_or(j), pos),
+                Ok(Err(e)) => format!("json-err {}", e),
+                Err(p) => format!("json-panic {}", p.sig("to_json")),
+            },
+            Ok(Err(e)) => format!("err {}", e),
+            Err(f) => format!("panic {}", f.sig),
+        }
+    }
+}
+
+impl Canaries {
+    pub fn new() -> Self {
+        let mut runner = gen::fixed_runner(15);
+        let inputs: Vec<(crate::boxes::Spec, Vec<u8>)> = crate::boxes::KINDS
+            .iter()
+            .map(|k| {
+                let spec = gen::draw(&crate::boxes::strategy(k, 2), &mut runner);
+                let bytes = spec.node().render();
+                (spec, bytes)
+            })
+            .collect();
+        let mut c = Canaries { inputs, want: Vec::new() };
+        c.want = c.digests();
+        c
+    }
+    /// `reverse`: decode the canaries last-to-first (a canary may itself reset the state another
+    /// one depends on, so both orders are used)
+    fn digests_in(&self, reverse: bool) -> Vec<String> {
+        let mut out = vec![String::new(); self.inputs.len()];
+        let order: Vec<usize> = if reverse { (0..self.inputs.len()).rev().collect() } else { (0..self.inputs.len()).collect() };
+        for i in order {
+            out[i] = self.digest_one(i);
+        }
+        out
+    }
+    fn digests(&self) -> Vec<String> {
+        self.digests_in(false)
+    }
+    fn digest_one(&self, i: usize) -> String {
+        [&self.inputs[i]]
+            .iter()
+            .map(|(spec, bytes)| {
+                let mut v = JsonOf { kind: spec.kind(), bytes };
+                match crate::libbox::with_lib(spec, &mut v) {
+                    Some(s) => s,
+                    None => {
+                        use crate::libbox::Visitor;
+                        v.visit(&crate::libbox::dinf_witness())
+                    }
+                }
+            })
+            .collect::<Vec<String>>()
+            .pop()
+            .unwrap_or_default()
+    }
+    pub fn check(&self) -> Check {
+        let rev = self.digests_in(true);
+        let fwd = self.digests_in(false);
+        for (i, (a, b)) in self.want.iter().zip(rev.iter()).chain(self.want.iter().zip(fwd.iter())).enumerate() {
+            let i = i % self.inputs.len();
+            if a != b {
+                let k = self.inputs[i].0.kind();
+                fail!(format!("c15:canary-decodes-differently:{}", k), "the reference {} box decodes differently than at the start of the run (same bytes, same call): state outside the readers has changed\n  before: {}\n  now:    {}", k, a.chars().take(300).collect::<String>(), b.chars().take(300).collect::<String>());
+            }
+        }
+        Ok(())
+    }
+}
+
 pub fn run(ctx: &mut Ctx) {
     ctx.stage("random");
     let cases = ctx.pick(100_000u32, 800_000u32) / ctx.nshards;
     let maxc = ctx.pick(60usize, 200usize);
-    ctx.run_prop(case_strategy(maxc), cases, |ctx, c| oracle(ctx, c));
+    let canaries = Canaries::new();
+    let counter = std::cell::Cell::new(0u64);
+    ctx.run_prop(case_strategy(maxc), cases, |ctx, c| {
+        oracle(ctx, c)?;
+        counter.set(counter.get() + 1);
+        if counter.get() % 64 == 0 {
+            canaries.check()?;
+            ctx.count("canaries-rechecked");
+        }
+        Ok(())
+    });
     // ---- the same history muxed with real time passing between two calls ----
     // (the harness owns the schedule: one run back to back, one with a pause before a generated
     // call; the bytes must be equal. Bounded by count, each case costs the pause in wall time only.)
